@@ -126,6 +126,7 @@ class RemoteServer():
                         ctx = self.contexts.get(ctx_id, None)
                         if ctx is None:
                             logger.warning('Context {} does not exist!', ctx_id)
+                            cli.close() # let the client know that nothing is going to happen
                             continue
 
                         ctx.call(cli)
@@ -135,6 +136,7 @@ class RemoteServer():
                             child = recv_msg(cli, { '_socket': cli, '_reset_sigterm_hnd': True }, comment='server: remote worker')
                         except ConnectionClosedError:
                             logger.info('Client disconnected before child was successfully created')
+                            cli.close()
                             continue
 
                         self.children.append(child)
